@@ -7,11 +7,15 @@ def plan(tier):
     # process; a new ASan process costs ~7 ms of system time, a plain one ~1.5 ms.  The quick scenario set runs under
     # ASan in both tiers; the larger thorough set runs in a plain -O2 build (asserts on, same oracles).
     hp = Harness("c11_sync_plain", ["harness/c11_sync.cpp"], flavor="plain", shim=True, extra_flags=["-fno-access-control"])
-    runs = [(h, ["--tier", "quick", "--deadline", "240"], NCPU)]
+    # TSan build, only the happens-before scenarios of the barriers (hb:*): plain data handed through the barrier; the barrier's
+    # acquire/release operations are the only ordering TSan can see (the scheduler TU is uninstrumented)
+    ht = Harness("c11_sync_tsan", ["harness/c11_sync.cpp"], flavor="tsan", shim=True, extra_flags=["-fno-access-control"])
+    runs = [(h, ["--tier", "quick", "--deadline", "240"], NCPU),
+            (ht, ["--tier", tier, "scenario=hb:", "nostateful=1", "--deadline", "200"], 12)]
     if tier == "thorough":
         runs.append((hp, ["--tier", "thorough", "--deadline", "1500"], NCPU))
     return {
-        "harnesses": [h, hp] if tier == "thorough" else [h],
+        "harnesses": [h, ht, hp] if tier == "thorough" else [h, ht],
         "runs": runs,
         "states_key": "schedules_at_top_bound", "transitions_key": "transitions", "traces_key": "executions",
         "distinct_key": "schedules_at_top_bound",
@@ -19,6 +23,7 @@ def plan(tier):
                 "barrier instance (n=1..4 threads x 1..3 generations x Mutex/Spin x wait/wait_yield); for each, every thread interleaving "
                 "with at most B preemptions (iterated B=0,1,..) and every notify_one target choice, executed on the real code under the "
                 "serialising scheduler; a schedule is one distinct choice list; states = distinct schedules at the highest completed bound",
-        "assumptions": ["sequentially consistent interleavings only", "no spurious wake-ups in the main exploration",
+        "assumptions": ["sequentially consistent interleavings only, except for the barriers' happens-before scenarios (hb:*), which run in a TSan build: plain data written before "
+                        "the barrier, read by the action and read after the barrier must be ordered by the barrier's own acquire/release operations", "no spurious wake-ups in the main exploration",
                         "preemption-bounded: bugs needing more preemptions than the completed bound are missed"],
     }
